@@ -5,19 +5,19 @@ import json, subprocess
 
 CHECKS = {
  "C01": dict(cat="model_checking", tech="explicit-state exploration of event sequences on the real DB vs reference model",
-   text="All event sequences up to the bound (14-point insert alphabet, Flush(t1), FlushAll; schemas {t1} and {t1,t2,view}) are executed on the real database with exact quiescence after each event; after every event, on every distinct storage state, every table's native query must equal a reference model that recomputes each aggregate from the raw points. Exhaustive within the bound, not beyond it.",
-   note="Trusted: the reference model (plain Go, no zenodb code), exact quiescence via hook counters, virtual clock. Alphabet and sequence length are the bound. Known finding D9 (array tails applied twice) is matched only when the result equals the tail-doubled model.",
+   text="All event sequences up to the bound (14-point insert alphabet, Flush(t1), FlushAll; schemas {t1} and {t1,t2,view}; t1 carries SUM, COUNT, MIN, MAX, AVG, WAVG, BOUNDED, arithmetic and IF fields incl. composite fields with an IF on either side), started from the empty database and from a state with two keys on disk and a point in memory, are executed on the real database with exact quiescence after each event; after every event, on every distinct storage state, every table's native query must equal a reference model that recomputes each aggregate from the raw points. Exhaustive within the bound, not beyond it.",
+   note="Trusted: the reference model (plain Go, no zenodb code), exact quiescence via hook counters, virtual clock. Alphabet and sequence length are the bound. Values of periods that have left the retention window are not compared (retention is C14's subject). Known finding D9 (array tails applied twice) is matched only when the result equals the tail-doubled model.",
    ref="§3 C01"),
  "C05": dict(cat="exploration", tech="exhaustive small-scope enumeration of expression trees / update splits / series alignments",
    text="Pure functions, so the bounded space is enumerated completely: every valid expression tree up to the depth bound, every update sequence up to length 3 over a 4-value alphabet, every split into 2 and 3 parts (merge == single state, commutative, associative, operands untouched); and for a 6-period window every pair of series masks × truncation instants for Merge, every mask × (asOf, until) pair for Truncate, every insertion order for UpdateValue, against a map[period]value reference.",
    note="PERCENTILE values are compared with single-state accumulation by the expr package itself (HDR histogram arithmetic trusted). Periods older than truncateBefore are unconstrained. SubMerge is exercised through C06/C07 queries rather than here.",
    ref="§3 C05"),
  "C03": dict(cat="model_checking", tech="exhaustive enumeration of flush/restart schedules per insert sequence on the real DB (metamorphic + reference model)",
-   text="For every insert sequence of the bound, every flush/restart schedule (after each insert: nothing, flush, clean restart, both) is executed on the real database, with unsorted and sorted (memory-cap) forced flushes, plain and large-state (PERCENTILE, SHIFT) schemas, and long schedules crossing the truncating 10th flush; every schedule must return the rows of the no-flush schedule for 17/12 field-subset queries, equal the reference model, and give disk-only == mem-inclusive right after each flush.",
+   text="For every insert sequence of the bound (an 8-point alphabet and a keyed 6-point alphabet with three keys, so that flushes merge files holding several keys absent from the memstore), every flush/restart schedule (after each insert: nothing, flush, clean restart, both) is executed on the real database, with unsorted and sorted (memory-cap) forced flushes, plain and large-state (PERCENTILE, SHIFT) schemas, and long schedules crossing the truncating 10th flush; every schedule must return the rows of the no-flush schedule for 17/12 field-subset queries, equal the reference model, and give disk-only == mem-inclusive right after each flush.",
    note="Timed flushes are explored as the forced-flush actor message (same code path apart from allowSort); real flush timers are pushed out of the way (MinFlushLatency 1h). PERCENTILE/SHIFT fields are compared schedule-vs-schedule only.",
    ref="§3 C03"),
  "C04": dict(cat="model_checking", tech="explicit-state: all distinct storage states × query alphabet, byte-level state comparison on the real DB",
-   text="Every distinct storage state (by decoded VerifDump key) reached by the bounded histories and placements is subjected to the whole 48/12-query alphabet with and without memstore; after each query the decoded bytes of file store and memstore and two probe queries must be unchanged, and the probes must still agree after the next flush. Thorough adds all ordered query pairs on representative states.",
+   text="Every distinct storage state (by decoded VerifDump key) reached by the bounded histories and placements is subjected to the whole 48/12-query alphabet with and without memstore; after each query the decoded bytes of file store and memstore and two probe queries must be unchanged, and the probes must still agree after the next flush. The baseline probes are cross-checked against a second fresh instance of the same state that issues them in the opposite order; on every state two queries are also made to end abnormally (consumer error at row 1 / 2, deadline already expired, deadline passing while a row is delivered), which must leave the data alone just the same. Thorough adds all ordered query pairs on representative states.",
    note="Query alphabet and histories are the bound; a query outside the alphabet is not covered.",
    ref="§3 C04"),
  "C09": dict(cat="exploration", tech="exhaustive enumeration of ORDER BY key lists × LIMIT/OFFSET on real DBs with an independent comparator",
@@ -25,43 +25,43 @@ CHECKS = {
    note="Ties may be broken either way; missing dims may sort to either end (consistently). Mixed-type dims are not in the datasets.",
    ref="§3 C09"),
  "C18": dict(cat="model_checking", tech="exhaustive placement of interfering events between row deliveries of a real scan (row callback as scheduling point)",
-   text="For 3 histories and both memstore options, every single placement (quick) and every ordered pair of placements (thorough) of 8 interfering events at every position from the scan snapshot to the last key is executed with exact quiescence inside the scan's callback; every delivered row must equal the reference model at scan start.",
+   text="For 5 histories (incl. everything on disk with an empty memstore, and an empty table) and both memstore options, every single placement and every ordered pair (quick) plus every ordered triple (thorough) of 8 interfering events at every position from the scan snapshot to the last key is executed with exact quiescence inside the scan's callback; every delivered row must equal the reference model at scan start.",
    note="Interleavings are at row-callback granularity (plus the snapshot hook); unsynchronised accesses are outside this check.",
    ref="§3 C18"),
  "C17": dict(cat="model_checking", tech="exhaustive enumeration of coalesced batches with harness-controlled batch composition on the real doProcessIterations",
-   text="The iteration intercept parks every scan request; the harness hands exactly the chosen batch (all 2- and 3-subsets of a 10-query alphabet in quick; all 4-subsets with every split into two successive batches and the 8- and 10-query batches in thorough) to the real doProcessIterations, on 4 datasets × {memory, disk, split}; every query's rows and error must equal its solo run; each batch runs 4 times because Go map order inside the combined callback is uncontrolled.",
+   text="The iteration intercept parks every scan request; the harness hands exactly the chosen batch (all 2- and 3-subsets of a 10-query alphabet in every arrival order, all 4-subsets and the 8- and 10-query batches in quick; every split of the 4-subsets into two successive batches and all 5-subsets in thorough) to the real doProcessIterations, on 4 datasets × {memory, disk, split, altered (fields added after the file was written)}; every query's rows and error must equal its solo run; each batch runs 4 times because Go map order inside the combined callback is uncontrolled.",
    note="Arrival inside/outside the coalesce interval is modelled as the choice of batch composition; the coalescer's timer itself is not exercised. For LIMIT / failing consumers the row count is compared.",
    ref="§3 C17"),
  "C14": dict(cat="model_checking", tech="explicit-state exploration of insert/clock/flush/restart sequences on the real DB with the virtual clock as an event",
-   text="All event sequences of the bound over late/boundary inserts on two keys, three clock advances, Flush, Flush×10 (guaranteeing a truncating flush) and Restart, for several retention/resolution ratios; after every event on every distinct state the four clauses of the property are checked against the list of accepted points through native, grouped, relative-range and wider-than-retention queries and the decoded storage (VerifDump).",
+   text="All event sequences of the bound over late/boundary inserts on two keys, three clock advances, Flush, Flush×10 (guaranteeing a truncating flush), the same with an empty flush after each data-carrying one, and Restart, for several retention/resolution ratios, started from the empty table and from a table whose file already holds an older point; after every event on every distinct state the four clauses of the property are checked against the list of accepted points through native, grouped, relative-range and wider-than-retention queries and the decoded storage (VerifDump).",
    note="'Older' is strict (a point exactly at now - retention is accepted; its period may be dropped by the next flush since it is no longer inside the window, so values of periods ending at or before now - retention are only required to consist of accepted points). Virtual clock restarts at the model's now after Restart.",
    ref="§3 C14"),
  "C15": dict(cat="model_checking", tech="explicit-state exploration of insert/flush/restart/ApplySchema sequences on the real DB vs a per-field reference model",
-   text="All event sequences of the bound over 4 inserts, Flush, Restart and ApplySchema with 15 layouts (rotations, every deletion, every insertion position of a new field, delete+insert, two WHERE variants; a wide PERCENTILE field included), at most 2 alters per sequence; after every event on every distinct state SELECT *, each single field and a reversed pair must equal a model that tracks per field the points processed while the field was continuously present.",
-   note="Re-added fields are unconstrained (the property does not speak to them). 'Processed before/after the alter' is exact because the driver quiesces before each alter and waits for the row store to take the update.",
+   text="All event sequences of the bound over 4 inserts, Flush, Restart and ApplySchema with 15 layouts (rotations, every deletion, every insertion position of a new field, delete+insert, two WHERE variants; a wide PERCENTILE field included), at most 2 alters per sequence, started from the empty table and from three non-initial states (two keys on disk / in memory / on disk with the new field added); after every event on every distinct state SELECT *, each single field, a reversed pair and the whole list - also under an aligned ASOF…UNTIL and an aligned ASOF - must equal a model that tracks per field the points processed while the field was continuously present.",
+   note="Re-added fields are unconstrained (the property does not speak to them). 'Processed before/after the alter' is exact because the driver quiesces before each alter and then sends a forced-flush request through the same row-store actor as a barrier (it does not wait on state).",
    ref="§3 C15"),
  "C06": dict(cat="exploration", tech="exhaustive small-scope enumeration of datasets × storage splits × clock positions × groupings × period multiples × field lists on real DBs with an anchoring-agnostic interval oracle",
    text="Every dataset of the bound (all sets of up to 2/3 cells over 6 keys × 5 periods plus richer sets) × {memory, disk, split} × 4 clock positions × 5 groupings × 6 period multiples (incl. non-divisors and larger than the window) × 5 field lists is queried on a real DB; per key the returned intervals must be disjoint, every point inside the window covered exactly once, every row equal to the aggregate recomputed from the raw points of its interval, no row without points.",
    note="Bucket anchoring, straddling periods and the planner's clamping of over-long periods are left open, as the property leaves them open; P is read from the plan. Values are distinct powers of two so sums identify the contributing points.",
    ref="§3 C06"),
  "C07": dict(cat="exploration", tech="exhaustive enumeration of (asOf, until) pairs × groupings × datasets on real DBs with the interval oracle",
-   text="Every (asOf, until) pair from a grid of absent / every boundary and mid-period instant around the data / relative offsets (421 pairs, empty and inverted ranges included) × 4 groupings × datasets × storage splits × 2 clock positions: every native period wholly inside the range is covered exactly once with recomputed values, nothing ends at or before asOf or begins at or after until, empty ranges yield an error or no rows, the default window brackets (now - retention, now].",
-   note="Periods straddling a range edge are unconstrained. A range whose asOf lies before the table window may be refused.",
+   text="Every (asOf, until) pair from a grid of absent / every boundary and mid-period instant around the data / relative offsets (421 pairs, empty and inverted ranges included) × 4 groupings × datasets × storage {memory, disk, split, altered: a field added in front of the others half-way, queried first} × 2 clock positions, plus the same grid applied to FROM-subqueries that carry absolute ranges of their own (compared with the direct query over the intersected range): every native period wholly inside the range is covered exactly once with recomputed values, nothing ends at or before asOf or begins at or after until, empty ranges yield an error or no rows, the default window brackets (now - retention, now].",
+   note="A coarser row straddling a range edge may hold any subset of the points of its own interval that lie inside the requested range (none from stored periods ending at or before asOf or beginning at or after until). A range whose asOf lies before the table window may be refused.",
    ref="§3 C07"),
  "C08": dict(cat="exploration", tech="exhaustive enumeration of a predicate grammar against an independent three-valued evaluator, plus HAVING / IN / FROM-subquery differentials",
-   text="820 WHERE predicates (10 atoms, their negations, all AND/OR pairs) × 3 query shapes × 6 datasets judged by a harness-written evaluator through the interval oracle; 20 HAVING predicates × 4 select lists × 3 shapes against the HAVING-free query; 12 IN-subquery pairs against literal lists; 20 FROM-subquery pairs against re-aggregation of the materialised inner rows.",
+   text="820 WHERE predicates (10 atoms, their negations, all AND/OR pairs) × 3 query shapes × 6 datasets judged by a harness-written evaluator through the interval oracle; 20 HAVING predicates × 4 select lists × 3 shapes against the HAVING-free query; 12 IN-subquery pairs against literal lists, 232 combinations of several / nested IN-subqueries in one WHERE against the literal lists; 20 FROM-subquery pairs against re-aggregation of the materialised inner rows, 20 CROSSTAB queries over re-aggregating FROM-subqueries against the same query directly over the table.",
    note="Comparisons against an absent dimension, and HAVING rows with an unset operand, are unconstrained (three-valued). Quick runs every third WHERE predicate.",
    ref="§3 C08"),
  "C10": dict(cat="exploration", tech="exhaustive differential: config × dataset × query on a real in-process cluster vs a standalone DB",
-   text="Every configuration (P, leaders, followers per partition) × dataset × 100 queries (20 per table, 5 tables covering every partitionBy variant) is executed on a real in-process cluster wired through the public seams and on a standalone DB fed the same points; rows, order under ORDER BY, per-partition placement sums, redundant followers and partition statistics are compared.",
+   text="Every configuration (P, leaders, followers per partition) × dataset × 100 queries (20 per table, 5 tables covering every partitionBy variant, one of them with its keys declared out of alphabetical order) is executed on a real in-process cluster wired through the public seams and on a standalone DB fed the same points; rows, order under ORDER BY, per-partition placement sums, redundant followers and partition statistics are compared.",
    note="Clocks are advanced together. Leader queries are retried while a partition has no live handler (availability is C13's subject). Known finding D13 (OFFSET applied twice in pushdown) is matched only when the result equals the prediction computed from the followers' own answers.",
    ref="§3 C10"),
  "C12": dict(cat="model_checking", tech="deviation-bounded exploration of fault sequences on a real in-process cluster with harness-owned links and exact quiescence, plus explicit-state TLC exploration of a TLA+ offset hand-over model whose every behaviour is replayed against the real cluster",
-   text="The base schedule (3/4 inserts through the leader(s), eager delivery) plus every placement of up to 2 fault events (flush one table, flush all, clean stop/start, crash with the directory image of that instant, cut, reconnect, gate, ungate, leader restart, snapshot, restore) at every position, on two tables with different partition keys so per-table offsets diverge; after healing, every table's rows summed over partitions must equal a standalone DB, redundant followers must be identical and leader queries must equal standalone. Second layer: models/c12_follow.tla (per-table stored offsets, follower joins from the earliest offset, skipping per table, flushes, clean restarts, crash to an older image, leader restart) is checked by TLC for ExactlyOnce; its state graph is dumped and every maximal path of the history variable is replayed on the real cluster, comparing per-table applied counts step by step.",
+   text="The base schedule (3/4 inserts through the leader(s), eager delivery) plus every placement of up to 2 fault events (flush one table, flush all, clean stop/start, crash with the directory image of that instant, cut, reconnect, gate, ungate, leader restart, snapshot, restore) at every position, on two tables with different partition keys so per-table offsets diverge, from the empty cluster and from a state in which every table of every follower already has a stored offset; the same with the second table added to every node while the followers are already following (late subscription); after healing, every table's rows summed over partitions must equal a standalone DB, redundant followers must be identical and leader queries must equal standalone. Second layer: models/c12_follow.tla (per-table stored offsets, follower joins from the earliest offset, skipping per table, flushes, clean restarts, crash to an older image, leader restart) is checked by TLC for ExactlyOnce; its state graph is dumped and every maximal path of the history variable is replayed on the real cluster, comparing per-table applied counts step by step.",
    note="The reconnect policy of server.followSource is re-implemented in the driver; the cross-check against real server processes over gRPC (layer 3 of DESIGN §C12) is not built. TLC runs as a pre-step of the check (about 15 s); with FixD10=FALSE the model reproduces the repaired defect D10.",
    ref="§3 C12"),
  "C02": dict(cat="fault_enumeration", tech="exhaustive crash-image enumeration: every hit of every instrumented step of every bounded history, plus torn WAL tails, recovered on the real code",
-   text="Every history of the bound over 4 inserts, Flush(t1), FlushAll and clean Restart on two tables (one with a WHERE, reaching the offset-only flush path) runs once on the real write path; at every hit of each of 17 instrumented steps the data directory is copied (exactly what SIGKILL at that instant leaves) and the in-flight WAL entry is additionally torn to 6 length classes; every distinct image is recovered by a fresh DB to exact quiescence and compared with the reference model of acknowledged inserts (in-flight: 0 or 1); thorough recovers twice. A real child process exiting inside the hook validates the image abstraction.",
+   text="Every history of the bound over 4 inserts, Flush(t1), FlushAll and clean Restart on two tables (one with a WHERE, reaching the offset-only flush path), started from the empty directory and from a non-initial state (data files exist and one table's offset file is ahead of its data file), runs once on the real write path; at every hit of each of 17 instrumented steps the data directory is copied (exactly what SIGKILL at that instant leaves) and the in-flight WAL entry is additionally torn to 6 length classes; every distinct image is recovered by a fresh DB to exact quiescence and compared with the reference model of acknowledged inserts (in-flight: 0 or 1); thorough recovers twice. A real child process exiting inside the hook validates the image abstraction.",
    note="Process-kill model (page cache survives): no unsynced-block subsets, no reordered renames. Kill instants inside the wal dependency are represented only by the torn-tail classes. Conformance compares file rank and size (contents embed wall-clock WAL offsets).",
    ref="§3 C02"),
  "C11": dict(cat="translation_validation", tech="per-program translation validation: every enumerated SQL program planned by the real planner for a cluster and locally, both executed over mock partitions",
@@ -69,11 +69,11 @@ CHECKS = {
    note="The mock QueryCluster mirrors DB.queryCluster (per-partition planning, first partition's fields). Known findings D8, D13, D14, D15, D20 are matched by narrow predicates (specific clause shape plus the exact discrepancy); wrong rows outside those shapes are violations.",
    ref="§3 C11"),
  "C13": dict(cat="fault_enumeration", tech="exhaustive fault enumeration (deadline positions, partition-failure subsets and modes, size caps) on the real code with a complete run as ground truth",
-   text="Deadlines made to expire after every row position (and already expired) for 30 query shapes; for P in {2,3} every non-empty subset of partitions × 5 failure modes (every k for mid-stream errors) × pushdown and non-pushdown queries with harness-registered handlers; a memory cap tripping at row 1000; and through the web API: query timeout, response-size estimate after every K <= 6, final size check, planning error on /immediate, /async, /run, then a cache hit and the permalink. Each faulted run must error, report the partition missing, answer non-200, or be complete.",
-   note="Deadlines are outlasted deterministically, never raced. The RPC query path is exercised by C20 rather than here. /run and /async (5 s coalescing wait) are exercised for one query each.",
+   text="Deadlines made to expire after every row position (and already expired) for 30 query shapes; for P in {2,3} every non-empty subset of partitions × 5 failure modes (every k for mid-stream errors) × pushdown and non-pushdown queries with harness-registered handlers; a memory cap tripping at row 1000 under 11 query shapes (bare scan, group stages, filter, having, sort, limit, range, FROM- and IN-subquery) against the uncapped results; for P=2 the partition error modes again with every handler answering over real gRPC (rpc.Client.ProcessRemoteQuery against the leader's server); and through the web API: query timeout, response-size estimate after every K <= 6, final size check, planning error on /immediate, /async, /run, then a cache hit and the permalink. Each faulted run must error, report the partition missing, answer non-200, or be complete.",
+   note="Deadlines are outlasted deterministically, never raced. A partition untouched by the harness that is nevertheless reported missing marks the run incomplete. /run and /async (5 s coalescing wait) are exercised for one query each.",
    ref="§3 C13"),
  "C16": dict(cat="exploration", tech="exhaustive enumeration of bounded mutation operators over a seed corpus (SQL) and of a payload universe (inserts), each executed under recover() with a watchdog",
-   text="Every statement kind and unsupported SELECT construct, every single-token deletion / duplication / adjacent swap / truncation prefix of a 71-query corpus, every function name × arity 0..6 × argument kind × clause position, through sql.Parse, sql.TableFor, planner.Plan (local and clustered) and DB.Query; the full 26×26 product of value kinds as dim and value, every prefix and single-byte corruption of valid raw byte maps, on a standalone DB and through a cluster leader, plus web JSON bodies - each payload sandwiched between marker points that must both be ingested exactly once.",
+   text="Every statement kind and unsupported SELECT construct, every single-token deletion / duplication / adjacent swap / truncation prefix of a 71-query corpus, every function name × arity 0..6 × 10 argument kinds × 3 argument patterns × clause position, through sql.Parse, sql.TableFor, planner.Plan (local and clustered) and DB.Query; the full 26×26 product of value kinds as dim and value, every prefix and single-byte corruption of valid raw byte maps, on a standalone DB and through a cluster leader, plus web JSON bodies - each payload sandwiched between marker points that must both be ingested exactly once.",
    note="The property speaks about parsing and planning: plans that panic only when executed (goexpr dimension functions fed wrong argument types) are counted, not reported. Unrecoverable crashes (D16 stack overflow, D17 out of memory) are observed in child processes and matched by their exact signature.",
    ref="§3 C16"),
  "C19": dict(cat="exploration", tech="complete enumeration of the request lattice over real gRPC and HTTP endpoints",
@@ -81,7 +81,7 @@ CHECKS = {
    note="The provider model vouches only for the two access tokens it knows (the one it issues, the one inside the harness's cookies); XSRF state expiry (1 minute of wall clock) is not explored.",
    ref="§3 C19"),
  "C20": dict(cat="exploration", tech="exhaustive round-trip enumeration through the real codec plus end-to-end differential over real gRPC",
-   text="Every valid expression tree of the generator (depth 2 quick / 3 thorough) as a field through rpc.Codec: same text, width, validity, shift and identical behaviour under every update sequence up to length 3 and under merges; every scalar type, series, rows, stats, metadata, queries, follow requests through their messages; 20 queries × 3 datasets embedded vs rpc client/server, and via a follower answering on behalf of the leader through ProcessRemoteQuery vs standalone.",
+   text="Every valid expression tree of the generator (depth 2 quick / 3 thorough) as a field through rpc.Codec: same text, width, validity, shift and identical behaviour under every update sequence up to length 3 and under merges; every scalar type, series, rows, stats, metadata, queries, follow requests through their messages; 20 queries × 3 datasets embedded vs rpc client/server, and via a follower answering on behalf of the leader through ProcessRemoteQuery vs standalone, plus a long-series dataset whose raw rows exceed an HTTP/2 frame many times; the bytes Marshal returns must not change when the next message is marshalled.",
    note="Partitions without a connected handler over RPC are C13's subject and mark a run incomplete here.",
    ref="§3 C20"),
 }
